@@ -78,6 +78,7 @@ fn check_merged(rep: &mut Reporter, w: &World, ops: &[Op], snap: &Snap, head_mov
 }
 
 fn one(rep: &mut Reporter, seed: u64, thorough: bool) {
+    rep.case(seed);
     let mut rng = Rng::new(seed);
     let nd = 1 + rng.usize(4);
     let threshold = 1 + rng.usize(nd);
